@@ -73,3 +73,14 @@ func (v VerifChannel) SchedActiveLifetime() time.Duration {
 	defer i.Unlock()
 	return i.revisedLifetime
 }
+
+// SchedSetActiveSequenceNumber presets the sequence counter of the active instance (e.g. just below the roll-over).
+func (v VerifChannel) SchedSetActiveSequenceNumber(n uint32) {
+	i, err := v.S.getActiveChannelInstance()
+	if err != nil {
+		return
+	}
+	i.Lock()
+	i.sequenceNumber = n
+	i.Unlock()
+}
